@@ -136,7 +136,6 @@ fn subset_alphabet(n: &Node, cfg: &AlphaCfg, limit: usize) -> Vec<(String, Trans
     }
     let keep = limit.saturating_sub(bad.len() + 4);
     v.truncate(keep);
-    v.extend(bad);
     // dependent members: b spends a's first output, c spends b's
     let mut chains = vec![];
     for (l, a) in v.iter().take(6) {
@@ -176,7 +175,9 @@ fn subset_alphabet(n: &Node, cfg: &AlphaCfg, limit: usize) -> Vec<(String, Trans
         }
         out.insert(1.min(out.len()), (sl, st));
     }
-    out.truncate(limit);
+    // the invalid members close the alphabet (all of them: the chains and the stake inserted above must not push them out)
+    out.truncate(limit.saturating_sub(bad.len()));
+    out.extend(bad);
     out
 }
 
@@ -593,7 +594,7 @@ pub fn run(run: &Run) {
     cfg.deposits = true;
     cfg.stakes = true;
     cfg.per_denom = 3;
-    let limit = if thorough { 16 } else { 14 };
+    let limit = if thorough { 18 } else { 16 };
     let mut total_sets = 0u64;
     for (parent, open) in &bases {
         let (u, p) = match (&open.real, &parent.real) {
